@@ -79,6 +79,39 @@ func runC04(res *lib.Result, tier string, seed int64, args []string) error {
 	}
 	defer drv.Close()
 	root := lib.NewRng(uint64(seed))
+	searchFailing := func(src []byte) {
+		// the correspondence is broken: look for a failing input of the property itself — an identifier the REAL lexer
+		// places somewhere else than where its bytes are (S-col through the model's token offsets, which need the
+		// identifier sequences of both sides to agree)
+		implDump, _, _ := lib.LexDump(src)
+		var implIds [][2]string // text hex, 0-based "l:sc:l:ec"
+		for _, it := range strings.Split(implDump, ";") {
+			f := strings.Split(it, ",")
+			if len(f) >= 4 && f[0] == fmt.Sprint(int(lexer.TkIdentifier)) {
+				var sl, sc, el, ec int
+				fmt.Sscanf(f[3], "%d:%d:%d:%d", &sl, &sc, &el, &ec)
+				implIds = append(implIds, [2]string{f[1], fmt.Sprintf("%d:%d:%d:%d", sl-1, sc, el-1, ec)})
+			}
+		}
+		if ans, err := drv.Ask(fmt.Sprintf("lexcol %s %s", lib.Hex(src), lib.ConvTableFor(src))); err == nil {
+			if k := strings.LastIndex(ans, " P"); k > 0 {
+				items := strings.Split(ans[:k], ";")
+				if len(items) == len(implIds) {
+					for i, it := range items {
+						f := strings.Split(it, ",")
+						if len(f) != 5 || f[0] != implIds[i][0] {
+							break
+						}
+						sp, cls := strings.TrimPrefix(f[2], "S="), strings.TrimPrefix(f[3], "K=")
+						if implIds[i][1] != sp && !strings.ContainsAny(cls, "RN") {
+							res.AddViolation("impl-vs-spec", fmt.Sprintf("identifier %q is reported at %s, its bytes are at %s (line-prefix classes %q)", string(lib.UnHex(f[0])), implIds[i][1], sp, cls), fmt.Sprintf("%q", string(src)), false)
+							break
+						}
+					}
+				}
+			}
+		}
+	}
 	checkDoc := func(kind string, src []byte) error {
 		diff, unmod, err := compareLex(drv, src)
 		if err != nil {
@@ -88,37 +121,7 @@ func runC04(res *lib.Result, tier string, seed int64, args []string) error {
 			res.Dist("unmodelled(gbk-or-reentrant)")
 		} else if diff != "" {
 			res.AddViolation("impl-vs-model", "lexer: "+diff, fmt.Sprintf("%q", string(src)), true)
-			// the correspondence is broken: look for a failing input of the property itself — an identifier the REAL lexer
-			// places somewhere else than where its bytes are (S-col through the model's token offsets, which need the
-			// identifier sequences of both sides to agree)
-			implDump, _, _ := lib.LexDump(src)
-			var implIds [][2]string // text hex, 0-based "l:sc:l:ec"
-			for _, it := range strings.Split(implDump, ";") {
-				f := strings.Split(it, ",")
-				if len(f) >= 4 && f[0] == fmt.Sprint(int(lexer.TkIdentifier)) {
-					var sl, sc, el, ec int
-					fmt.Sscanf(f[3], "%d:%d:%d:%d", &sl, &sc, &el, &ec)
-					implIds = append(implIds, [2]string{f[1], fmt.Sprintf("%d:%d:%d:%d", sl-1, sc, el-1, ec)})
-				}
-			}
-			if ans, err := drv.Ask(fmt.Sprintf("lexcol %s %s", lib.Hex(src), lib.ConvTableFor(src))); err == nil {
-				if k := strings.LastIndex(ans, " P"); k > 0 {
-					items := strings.Split(ans[:k], ";")
-					if len(items) == len(implIds) {
-						for i, it := range items {
-							f := strings.Split(it, ",")
-							if len(f) != 5 || f[0] != implIds[i][0] {
-								break
-							}
-							sp, cls := strings.TrimPrefix(f[2], "S="), strings.TrimPrefix(f[3], "K=")
-							if implIds[i][1] != sp && !strings.ContainsAny(cls, "RN") {
-								res.AddViolation("impl-vs-spec", fmt.Sprintf("identifier %q is reported at %s, its bytes are at %s (line-prefix classes %q)", string(lib.UnHex(f[0])), implIds[i][1], sp, cls), fmt.Sprintf("%q", string(src)), false)
-								break
-							}
-						}
-					}
-				}
-			}
+			searchFailing(src)
 			return nil
 		}
 		ans, err := drv.Ask(fmt.Sprintf("lexcol %s %s", lib.Hex(src), lib.ConvTableFor(src)))
@@ -196,6 +199,7 @@ func runC04(res *lib.Result, tier string, seed int64, args []string) error {
 			return err
 		} else if !unmod && diff != "" {
 			res.AddViolation("impl-vs-model", "parser Locs: "+diff, fmt.Sprintf("%q", src), true)
+			searchFailing([]byte(src))
 			continue
 		}
 		dump, _, _ := lib.ParseDump([]byte(src))
